@@ -827,15 +827,16 @@ class ParserField:
             return no_input if isinstance(no_input, bool) else False
 
         if isinstance(no_input, (str, list, set, tuple)):
-            return options.mode in no_input
-
-        if no_input is True:
+            if options.mode in no_input:
+                return True
+            # not one of the no-input modes: the field's own mode still applies (as in always_no_input)
+        elif no_input is True:
             return True
 
         if self.mode:
             return options.mode not in self.mode
 
-        return bool(no_input)
+        return no_input if isinstance(no_input, bool) else False
 
     def always_no_input(self, options: Options):
         # calculate before get the value
@@ -884,15 +885,16 @@ class ParserField:
             return no_output if isinstance(no_output, bool) else False
 
         if isinstance(no_output, (str, list, set, tuple)):
-            return options.mode in no_output
-
-        if no_output is True:
+            if options.mode in no_output:
+                return True
+            # not one of the no-output modes: the field's own mode still applies (as in always_no_output)
+        elif no_output is True:
             return True
 
         if self.mode:
             return options.mode not in self.mode
 
-        return bool(no_output)
+        return no_output if isinstance(no_output, bool) else False
 
     def check_function(self, func):
         if not self.always_provided:
